@@ -21,6 +21,7 @@ import (
 	"reflect"
 	"runtime"
 	"sort"
+	"strings"
 	"sync"
 	"time"
 
@@ -30,6 +31,7 @@ import (
 	"github.com/NethermindEth/juno/db"
 	"github.com/NethermindEth/juno/db/memory"
 	"github.com/NethermindEth/juno/db/pebblev2"
+	"github.com/NethermindEth/juno/encoder"
 	_ "github.com/NethermindEth/juno/encoder/registry"
 	"github.com/NethermindEth/juno/feed"
 	"github.com/NethermindEth/juno/pruner"
@@ -86,6 +88,9 @@ func fixedClasses() {
 	})
 }
 
+// bareID: block ids stored without any transaction (the "always populated" dimension made explicit).
+func bareID(off uint64, n, v int) bool { return off+uint64(n) > 0 && (n+v)%5 == 0 }
+
 // blockSpec is the deterministic content of block id (n, v) (n = specification number).
 func blockSpec(seed int64, off uint64, n, v int) chainkit.BlockSpec {
 	fixedClasses()
@@ -122,6 +127,9 @@ func blockSpec(seed int64, off uint64, n, v int) chainkit.BlockSpec {
 	kinds := []string{chainkit.TxKinds[(n*3+v)%len(chainkit.TxKinds)]}
 	if n%2 == 0 && kinds[0] != "l1handler" {
 		kinds = append(kinds, "l1handler")
+	}
+	if bareID(off, n, v) {
+		kinds = nil // a block without any transaction: no lookups, empty bloom, empty receipts
 	}
 	var txs []core.Transaction
 	var rcs []*core.TransactionReceipt
@@ -293,6 +301,8 @@ type world struct {
 	cacheWarm        bool
 	crossedAfterWarm bool
 	restarts         int
+	retained         []kept
+	idsMu            sync.Mutex // built / byHash / ver while a writer and readers run concurrently
 }
 
 func (w *world) real(n int) uint64 { return w.off + uint64(n) }
@@ -365,14 +375,38 @@ func (w *world) close() {
 }
 
 func (w *world) note(id bk, b *chainkit.Built) {
+	w.idsMu.Lock()
+	defer w.idsMu.Unlock()
 	w.built[id] = b
 	w.byHash[*b.Block.Hash] = id
+}
+
+// idOf is the lookup the concurrent readers use while the writer registers new blocks.
+func (w *world) idOf(h *felt.Felt) (bk, bool) {
+	w.idsMu.Lock()
+	defer w.idsMu.Unlock()
+	id, ok := w.byHash[*h]
+	return id, ok
+}
+
+// eventFound: does the event index return the event of block id when asked up to height `to`?
+func (w *world) eventFound(bc *blockchain.Blockchain, id bk, to uint64) bool {
+	f, err := bc.EventFilter(nil, [][]felt.Felt{{eventKey(id.N, id.V)}}, noPreConfirmed)
+	if err != nil {
+		return false
+	}
+	defer f.Close()
+	from, _ := pruner.OldestRetainedBlock(w.raw)
+	_ = f.SetRangeEndBlockByNumber(blockchain.EventFilterFrom, from)
+	_ = f.SetRangeEndBlockByNumber(blockchain.EventFilterTo, to)
+	evs, _, err := f.Events(nil, 100000)
+	return err == nil && len(evs) == 1 && evs[0].BlockNumber == w.real(id.N)
 }
 
 // boot = process start: new fault wrapper on the surviving store, floor seeded from the database,
 // a new Blockchain (its running event filter initialises lazily from the database).
 func (w *world) boot() error {
-	w.fk = faultkv.Wrap(w.raw)
+	w.fk = faultkv.Wrap(poisonStore{w.raw})
 	floor, err := pruner.NewRetentionFloor(w.fk)
 	if err != nil {
 		return err
@@ -451,7 +485,9 @@ func (w *world) nextBlock() (bk, *chainkit.Built, error) {
 		}
 		// built earlier on another parent and never committed (a committed id is never offered
 		// again: ver[n] moves on): the id keeps its number and version, as in the specification
+		w.idsMu.Lock()
 		delete(w.byHash, *b.Block.Hash)
+		w.idsMu.Unlock()
 	}
 	b, err := w.twin.Build(blockSpec(w.seed, w.off, id.N, id.V))
 	if err != nil {
@@ -518,6 +554,71 @@ func (w *world) restart() error {
 func (w *world) hasWindow0() bool {
 	ok, _ := w.raw.Has(db.AggregatedBloomFilterKey(0, core.NumBlocksPerFilter-1))
 	return ok
+}
+
+// ------------------------------------------------------------------ poisoning store
+// poisonStore hands every Get callback a private copy of the value and scribbles over it when the
+// callback returns: a reader that keeps (part of) the lent buffer instead of copying it ends up
+// with garbage, which the comparison with the twin then sees.
+type poisonStore struct{ db.KeyValueStore }
+
+func (p poisonStore) Get(k []byte, cb func([]byte) error) error {
+	return p.KeyValueStore.Get(k, func(v []byte) error {
+		c := append([]byte(nil), v...)
+		err := cb(c)
+		for i := range c {
+			c[i] = 0xA5
+		}
+		return err
+	})
+}
+
+// ------------------------------------------------------------------ retained results
+// Values handed out by the readers must not change afterwards (pooled objects, shared maps,
+// aliased buffers): each is kept with its encoding taken at return time and re-encoded later.
+type kept struct {
+	what string
+	val  any
+	enc  string
+}
+
+func encOf(v any) string {
+	if b, err := encoder.Marshal(v); err == nil {
+		return string(b)
+	}
+	return fmt.Sprintf("%#v", v)
+}
+
+func (w *world) keep(what string, v any, err error) {
+	if err == nil && v != nil && len(w.retained) < 80 {
+		w.retained = append(w.retained, kept{what, v, encOf(v)})
+	}
+}
+
+func (w *world) retain(bc *blockchain.Blockchain) {
+	h, err := bc.Height()
+	if err != nil {
+		return
+	}
+	hd, e1 := bc.BlockHeaderByNumber(h)
+	w.keep(fmt.Sprintf("header(%d)", h), hd, e1)
+	su, e2 := bc.StateUpdateByNumber(h)
+	w.keep(fmt.Sprintf("state-update(%d)", h), su, e2)
+	txs, rcs, e3 := bc.TransactionsAndReceiptsByBlockNumber(h)
+	for i := range txs {
+		w.keep(fmt.Sprintf("tx(%d,%d)", h, i), txs[i], e3)
+		w.keep(fmt.Sprintf("receipt(%d,%d)", h, i), rcs[i], e3)
+	}
+	cm, e4 := bc.BlockCommitmentsByNumber(h)
+	w.keep(fmt.Sprintf("commitments(%d)", h), cm, e4)
+}
+
+func (w *world) checkRetained(add adder) {
+	for _, k := range w.retained {
+		if encOf(k.val) != k.enc {
+			add("aliasing:"+strings.SplitN(k.what, "(", 2)[0], fmt.Sprintf("%s returned earlier changed after later calls", k.what), nil)
+		}
+	}
 }
 
 // ------------------------------------------------------------------ pruner service
@@ -754,7 +855,12 @@ func (w *world) project() post {
 				}
 			}
 			switch {
-			case have == len(b.Block.Transactions) && have > 0:
+			case len(b.Block.Transactions) == 0:
+				// no lookup rows exist for a block without transactions: the family follows the body row
+				if k := len(p.Txs); k > 0 && p.Txs[k-1][0] == n && p.Txs[k-1][1] == id.V {
+					p.Txl = append(p.Txl, []int{n, id.V})
+				}
+			case have == len(b.Block.Transactions):
 				p.Txl = append(p.Txl, []int{n, id.V})
 			case have > 0:
 				p.Txl = append(p.Txl, []int{n, -id.V})
@@ -1127,7 +1233,9 @@ func (w *world) evaluate(bc *blockchain.Blockchain, store db.KeyValueStore) []vi
 		var want []bk
 		for n := oldest; n <= th; n++ {
 			h, _ := w.twin.BC.BlockHeaderHashByNumber(n)
-			want = append(want, w.byHash[*h])
+			if id := w.byHash[*h]; !bareID(w.off, id.N, id.V) {
+				want = append(want, id)
+			}
 		}
 		have := map[bk]bool{}
 		for _, id := range found {
@@ -1142,6 +1250,10 @@ func (w *world) evaluate(bc *blockchain.Blockchain, store db.KeyValueStore) []vi
 		if len(have) > 0 {
 			add("events:extra", fmt.Sprintf("got %v want %v", found, want), nil)
 		}
+	}
+	if bc == w.node.BC {
+		w.checkRetained(add)
+		w.retain(bc)
 	}
 	return out
 }
